@@ -27,7 +27,9 @@ Colls == << M("pmap", A1), M("pmap", << <<Kw("a"), N("float", 1, 1)>> >>), M("pm
             M("pmap", << <<S("vector", T12), One>> >>), M("pmap", << <<S("list", T12), One>> >>),
             St(<<One>>), St(<<N("float", 1, 1)>>), St(<<B(TRUE)>>), St(<<>>),
             St(<<S("vector", T12)>>), St(<<S("list", T12)>>),
-            S("vector", <<S("vector", T12)>>), S("vector", <<S("list", T12)>>), S("list", <<S("queue", T12)>>) >>
+            S("vector", <<S("vector", T12)>>), S("vector", <<S("list", T12)>>), S("list", <<S("queue", T12)>>),
+            \* a record carrying a key beyond its declared fields: equal fields alone do not make records equal
+            M("rec:R", << <<Kw("a"), One>>, <<Kw("b"), Two>> >>), M("pmap", << <<Kw("a"), One>>, <<Kw("b"), Two>> >>) >>
 UQ == Atoms \o Seqs \o Colls
 (* thorough: more numbers, three-element sequences in every representation, two-entry maps, depth 2 *)
 T123 == <<One, Two, I(3)>>
